@@ -269,7 +269,7 @@ func (x *Executor) frameObligations(fr *Frame, con *Contract, ws *WriteSet, env 
 			if len(exc) > 0 {
 				excT = "(or " + strings.Join(exc, " ") + ")"
 			}
-			goal = fmt.Sprintf("(forall ((r Int) (k Int)) (=> (and (select %s r) (not %s)) (= (select (select %s r) k) (select (select %s r) k))))", alloc0, excT, now, was)
+			goal = fmt.Sprintf("(forall ((r Int) (k Int)) (=> (and (select %s (refroot r)) (not %s)) (= (select (select %s r) k) (select (select %s r) k))))", alloc0, excT, now, was)
 		} else {
 			var exc []string
 			for _, t := range targets {
@@ -281,7 +281,7 @@ func (x *Executor) frameObligations(fr *Frame, con *Contract, ws *WriteSet, env 
 			if len(exc) > 0 {
 				excT = "(or " + strings.Join(exc, " ") + ")"
 			}
-			goal = fmt.Sprintf("(forall ((r Int)) (=> (and (select %s r) (not %s)) (= (select %s r) (select %s r))))", alloc0, excT, now, was)
+			goal = fmt.Sprintf("(forall ((r Int)) (=> (and (select %s (refroot r)) (not %s)) (= (select %s r) (select %s r))))", alloc0, excT, now, was)
 		}
 		u.addObl(&Obligation{Name: name + "#frame:" + c, Kind: "frame", Clause: "only declared locations of " + c + " are modified", Goal: fmt.Sprintf("(=> %s %s)", ex.cond, goal)})
 	}
